@@ -341,6 +341,126 @@ class C02(layfamily.Family):
 FAM = C02()
 
 
+# ----------------------------------------------------------------------------- the same document encoded again
+
+def _edit(rng, spec, info):
+    """one edit of the document's data or settings → (kind, spec after the edit, info after the edit, how to apply it
+    to the live RTFDocument).  Every edit keeps the sentinel tags and the contiguity of the group keys."""
+    import copy
+
+    spec2, info2 = copy.deepcopy(spec), copy.deepcopy(info)
+    cols = spec["df"]["cols"]
+    rows = spec2["df"]["rows"]
+    n = len(rows)
+    first = len(info["hier"])
+    kind = rng.choice(["extend", "extend", "set_cell", "set_cell", "replace_frame", "nrow", "none"])
+    if n == 0 and kind in ("set_cell", "extend", "replace_frame"):
+        kind = "nrow"          # (an empty frame has no row whose group keys the new rows could continue)
+    ops = []
+    if kind in ("extend", "replace_frame"):
+        m = rng.randint(1, 6)
+        last = rows[-1] if rows else None
+        new = []
+        for i in range(n, n + m):
+            r = [f"r{i}c{j - first}" if j >= first else (last[j] if last is not None else f"G{j}a")
+                 for j in range(len(cols))]
+            new.append(r)
+        rows.extend(new)
+        info2["n"] = n + m
+        ops.append(dict(op=kind, rows=new if kind == "extend" else rows))
+    elif kind == "set_cell":
+        for _ in range(rng.randint(1, 3)):
+            i = rng.randrange(n)
+            j = rng.randrange(first, len(cols))
+            tag = f"r{i}c{j - first}"
+            v = tag + rng.choice([" (corrected)", "x", " 2nd", ""])
+            rows[i][j] = v
+            ops.append(dict(op="set_cell", i=i, col=cols[j], v=v))
+    elif kind == "nrow":
+        spec2["page"]["nrow"] = max(4, int(spec["page"].get("nrow", 40)) + rng.choice([-3, 5, 11]))
+        info2["nrow"] = spec2["page"]["nrow"]
+        ops.append(dict(op="nrow", v=spec2["page"]["nrow"]))
+    di = [cols.index(c) for c in info2["displayed"]]
+    info2["expect"] = [[docgen.display(r[c]) for c in di] for r in rows]
+    return kind, spec2, info2, ops
+
+
+def _apply(doc, spec2, ops):
+    import polars as pl
+
+    for o in ops:
+        if o["op"] == "extend":
+            # polars' in-place append on the very frame object the document holds
+            doc.df.extend(docgen.make_frame(dict(cols=spec2["df"]["cols"], rows=o["rows"])).cast(doc.df.schema))
+        elif o["op"] == "set_cell":
+            doc.df[o["i"], o["col"]] = o["v"]              # in-place cell assignment
+        elif o["op"] == "replace_frame":
+            doc.df = docgen.make_frame(spec2["df"])
+        elif o["op"] == "nrow":
+            doc.rtf_page.nrow = o["v"]
+
+
+def _reencode_worker(args):
+    seed, k, fixed = args
+    try:
+        import contextlib
+        import io
+
+        from .. import crosscorr
+
+        if fixed is not None:
+            spec, info, kind, spec2, info2, ops = (fixed[x] for x in ("spec", "info", "edit", "spec2", "info2", "ops"))
+        else:
+            rng = common.sub_rng(seed, "c02re", k)
+            spec, info = laygen.gen_spec(rng, nulls=0.0, long_rows=False)
+            for r in spec["df"]["rows"]:                     # string cells only: the edits assign strings
+                for j, v in enumerate(r):
+                    r[j] = v if (v is None or isinstance(v, str)) else str(v)
+            kind, spec2, info2, ops = _edit(rng, spec, info)
+        case = dict(level="re-encode", spec=spec, info=info, edit=kind, spec2=spec2, info2=info2, ops=ops)
+        with contextlib.redirect_stdout(io.StringIO()):
+            doc = docgen.build(spec)
+            try:
+                doc.rtf_encode()
+                _apply(doc, spec2, ops)
+                second = doc.rtf_encode()
+            except Exception as e:  # noqa: BLE001
+                return dict(case=case, fails=[f"encoding the document again after the edit raised {type(e).__name__}: {e}"[:300]])
+            fresh = docgen.build(spec2).rtf_encode()
+        ob = crosscorr.observe_text(second, info2)
+        fails = FAM.oracle(spec2, info2, ob)
+        return dict(case=case, fails=[f"after {kind} and a second rtf_encode() of the same document: {f}" for f in fails],
+                    same_as_fresh=(second == fresh), pages=len(ob["pages"]))
+    except Exception:  # noqa: BLE001
+        import traceback
+
+        return dict(machinery=traceback.format_exc()[-1500:])
+
+
+def run_reencode(res):
+    """the document is encoded, its data (in place: polars `extend`, cell assignment; or a new frame) or its page
+    setting is edited, and the SAME document object is encoded again: the second text must show the frame as it is
+    now — rows once each in order, every cell's display text"""
+    n = 60 if res.tier == "quick" else 600
+    outs = common.pool_map(_reencode_worker, [(res.seed, k, None) for k in range(n)], chunksize=4)
+    for o in outs:
+        if "machinery" in o:
+            raise common.MachineryError("worker failed: " + o["machinery"])
+        res.case(o["case"], ("re-encode", o["case"]["edit"], o.get("pages")) if o.get("pages", 0) >= 2 else None)
+        res.count("re-encode:" + o["case"]["edit"])
+        for f in o["fails"][:1]:
+            res.fail(o["case"], f)
+        if not o["fails"]:
+            res.corr_checked += 1
+            if not o.get("same_as_fresh", True):
+                res.disagree(o["case"], "the second encode of the edited document differs from the encode of a fresh "
+                                        "document built from the edited data (the layout model is a function of the "
+                                        "document's current value)")
+
+
+FAM.extra_streams = run_reencode
+
+
 def run(res, build):
     return layfamily.run_family(
         FAM, res, build, RULE, layfamily.TRUSTED_COMMON, layfamily.ASSUME_COMMON,
@@ -352,4 +472,22 @@ def run(res, build):
 
 
 def replay(payload):
+    case = payload.get("case") or {}
+    if case.get("level") == "re-encode":
+        o = common.pool_map(_reencode_worker, [(0, 0, case)] * 4)[0]
+        if "machinery" in o:
+            print(o["machinery"])
+            return 2
+        print("edit:", case.get("edit"), case.get("ops"))
+        for f in o["fails"]:
+            print("FAIL:", f)
+        if o["fails"]:
+            print("VIOLATION property=C02 replay=<given>")
+            return 1
+        if not o.get("same_as_fresh", True):
+            print("the second encode differs from a fresh document's encode; no clause of C02 fails on it")
+            print("VIOLATION property=C02 replay=<given> no-failing-input-found")
+            return 1
+        print("property holds on this input")
+        return 0
     return layfamily.replay_family(FAM, payload)
